@@ -716,6 +716,13 @@ theorem passes_pEnumStmt (tr : Bool) (s : G.EnumStmt) (h : enumStmtOk s = true) 
   exact passes_append (passes_pAttrs _ _ _ h.2)
     (passes_cons (passes_ident (plainId_of_nameOk h.1.1)) (passes_pOptExpr _ h.1.2))
 
+theorem passes_pTypeBody (tr : Bool) (ss : List G.Stmt) (h : ∀ x ∈ ss, stmtOk x = true) :
+    Passes (Print.pTypeBody tr ss) := by
+  simp only [Print.pTypeBody]
+  split
+  · exact pu ';'
+  · exact passes_pGroup _ _ _ _ _ (by decide) (fun x hx => passes_pStmt tr x (h x hx))
+
 theorem passes_pItemDef (tr : Bool) (i : G.Item) (h : itemOk i = true) :
     Passes (Print.pItemDef tr i) := by
   obtain ⟨vis, name, inner⟩ := i
@@ -726,7 +733,7 @@ theorem passes_pItemDef (tr : Bool) (i : G.Item) (h : itemOk i = true) :
     simp only [Print.pItemDef]
     exact passes_append (passes_append (passes_pAttrs _ _ _ (by simpa [List.all_eq_true] using h.2.1))
       (passes_pVis _)) (passes_cons (kw "type") (passes_cons (passes_ident (plainId_of_nameOk h.1))
-        (passes_pGroup _ _ _ _ _ (by decide) (fun x hx => passes_pStmt tr x (h.2.2 x hx)))))
+        (passes_pTypeBody tr _ (fun x hx => h.2.2 x hx))))
   | enum d =>
     simp only [innerOk, Bool.and_eq_true, List.all_eq_true] at h
     simp only [Print.pItemDef]
